@@ -273,6 +273,10 @@ func TestC20Verifier(t *testing.T) {
 				s.judge(n, r)
 			}
 			n.CheckCounters("at the end")
+			if n.AccountingFail != "" {
+				res.Fail = common.Failf("verifier-counter/unaccounted", "%s", n.AccountingFail)
+				return
+			}
 			if n.CounterFail != "" {
 				res.Fail = common.Failf("verifier-counter", "%s", n.CounterFail)
 				return
